@@ -104,6 +104,10 @@ def exit_documented(binary, rc):
         return True            # signals are judged elsewhere
     if binary == "e2fsck":
         return (rc & ~0xBF) == 0
+    if binary == "dumpe2fs":
+        # dumpe2fs(8): "0 if the operation completed without errors ... a non-zero return code
+        # if there are any errors" (its main() returns the library error code, truncated)
+        return True
     return rc < 64
 
 
@@ -125,7 +129,7 @@ def judge(binary, res, root=None, capped=False, san_exit=99):
             tail = "asan %s in %s" % (san["bug"], san["func"])
         return {"verdict": "violation", "key_tail": tail, "what": san["excerpt"],
                 "frames": san["frames"]}
-    if res.rc == san_exit:
+    if res.rc == san_exit and not (binary == "dumpe2fs" and "==ERROR" not in et and "Sanitizer" not in et):
         return {"verdict": "violation", "key_tail": "asan unparsed-report exit%d" % san_exit,
                 "what": et[-1500:]}
     if res.sig:
